@@ -71,7 +71,7 @@ def run_c04(tier):
     cov["transitions"] += cov2["transitions"]
     cov["traces_validated_against_impl"] += cov2["traces_validated_against_impl"]
     cov["complete_match_sets"] = {"match_sets": cov2.get("match_sets"), "universes": cov2["universes"], "tlc": cov2["tlc"],
-                                  "replay": cov2["replay"]}
+                                  "replay": cov2["replay"], "operational_matcher": cov2.get("operational_matcher")}
     finish(prop, tier, t0, findings, cov, assumptions=[
         "scope as stated by the property: linear binders, no redundant slots (decided per state by the specification's NonRed)",
         "instances are computed by Terms.Inst in TLC (ASSUME InstancesAgree), representation by SlottedCC's closure"])
